@@ -25,6 +25,8 @@ EXPLANATION = (
     "back unchanged). Not decided: arbitrary mutation histories (but without a shared edge no history can alias)."
     ' R18.5: in every property_by_object (the copy constructors) a conditional over a field of the source'
     ' compares with None; a bare truth test (which drops 0, 0.0 and empty values) is a finding.'
+    ' R18.1 includes linked_points_are_copies: every start/end store of'
+    ' Path._validate_connection/_validate_close/_validate_move/_validate_subpath is Point(x), copy(x) or None.'
 )
 TECHNIQUE = (
     "static analysis (no execution): ownership/aliasing analysis - copy constructors per mutable field kind, element-wise copy recognition, operand write-sets and returned-operand lint for non-in-place operators, adoption of operand objects"
